@@ -260,6 +260,7 @@ impl AsyncRead for SimAsyncReader {
             _ => {
                 if !w.read_enabled(plan) {
                     w.probe(P::pipe_empty_block);
+                    w.reader_parked_cap = Some(out.len());
                     w.pipe.read_waker = Some(cx.waker().clone());
                     if w.in_recv {
                         if let Some(r) = w.recvs.last_mut() {
@@ -269,6 +270,7 @@ impl AsyncRead for SimAsyncReader {
                     w.ev(RECEIVER, Op::Read, Out::PendingGenuine, 0, 0);
                     return Poll::Pending;
                 }
+                w.reader_parked_cap = None;
                 Poll::Ready(w.complete_read(RECEIVER, out, plan))
             }
         }
